@@ -92,7 +92,10 @@ def request_cases(draw):
     return {'kind': 'request', 'n': n,
             'which': draw(st.one_of(st.none(), st.integers(0, n - 1),
                                     st.lists(st.integers(0, n - 1), min_size=1, max_size=n,
-                                             unique=True)))}
+                                             unique=True))),
+            # tasks which have finished already when the request is made
+            'final': draw(st.lists(st.integers(0, n - 1), max_size=n, unique=True)),
+            'via_task': draw(st.booleans())}        # Task.cancel() instead of the manager call
 
 
 def parts(tier):
@@ -311,8 +314,21 @@ def run_request(case, res):
     else:
         want = [tasks[i % n].uid for i in w]
         arg = list(want)
+    import radical.pilot.states as rps
+    final = set()
+    for k, i in enumerate(case.get('final') or []):
+        t = tasks[int(i) % n]
+        tm._update_tasks([{'uid': t.uid, 'type': 'task',
+                           'state': [rps.DONE, rps.FAILED, rps.CANCELED][k % 3]}])
+        if t.state in rps.FINAL:
+            final.add(t.uid)
+    pos = len(sess.net.log)
     before = {t.uid: t.state for t in tasks}
-    tm.cancel_tasks(arg)
+    if case.get('via_task') and isinstance(w, int):
+        tasks[w % n].cancel()
+        res.label('request:Task.cancel')
+    else:
+        tm.cancel_tasks(arg)
     msgs = [ev[3] for ev in sess.net.log[pos:] if ev[0] == 'pub' and ev[1] == url_c
             and ev[3].get('cmd') == 'cancel_tasks']
     if len(msgs) != 1:
@@ -320,8 +336,15 @@ def run_request(case, res):
         return
     m = msgs[0]
     got = ru.as_list(m['arg'].get('uids'))
-    if sorted(got) != sorted(want):
-        res.fail('request:names_other_tasks', 'asked %s, message names %s' % (want, got))
+    if not set(got) <= set(want):
+        res.fail('request:names_other_tasks', 'asked %s (finished already: %s), message names %s'
+                 % (want, sorted(final), got))
+    elif not set(want) - final <= set(got):
+        res.fail('request:named_task_missing', 'asked %s, message names %s' % (want, got))
+    if final:
+        res.label('request:some_tasks_final')
+        if set(want) <= final:
+            res.label('request:all_named_tasks_final')
     if m.get('fwd') is not True:
         res.fail('request:not_marked_for_forwarding', str(m))
     for t in tasks:
